@@ -48,6 +48,16 @@ pub open spec fn radio_post(input: (&[u8], usize), t: u8, r: nom::IResult<(&[u8]
 }
 ''' + '''
 ''' + leaf_post('subm_u16_post', 'u16', 14, 'x == v') + '''
+/// C12 names the synchronisation state among the enumerated code fields: where the two communication-state parsers read it from (the
+/// first two of the 19 bits) is an obligation of C12 too, stated on its own so that a wrong slot field does not alarm C12
+pub open spec fn sotdma_sync_C12(data: (&[u8], usize), r: nom::IResult<(&[u8], usize), RadioStatus>) -> bool {
+    forall|orig: Seq<u8>, p: int| #[trigger] at(orig, data, p) ==>
+        (r is Ok && r->Ok_0.1 is Sotdma && 8 * orig.len() - p >= 19 ==> r->Ok_0.1->Sotdma_0.sync_state == sync_spec(fld(orig, p, 2) as u8))
+}
+pub open spec fn itdma_sync_C12(data: (&[u8], usize), r: nom::IResult<(&[u8], usize), RadioStatus>) -> bool {
+    forall|orig: Seq<u8>, p: int| #[trigger] at(orig, data, p) ==>
+        (r is Ok && r->Ok_0.1 is Itdma && 8 * orig.len() - p >= 19 ==> r->Ok_0.1->Itdma_0.sync_state == sync_spec(fld(orig, p, 2) as u8))
+}
 '''
 
 
@@ -60,6 +70,6 @@ def apply(fc):
     fc.contract('utc_hour_and_minute', within='impl SubMessage', requires=['cur_ok(data)'], ensures=['submsg_post(data, 1, r)'], tags=['C16'])
     fc.contract('slot_offset', within='impl SubMessage', requires=['cur_ok(data)'], ensures=['submsg_post(data, 0, r)'], tags=['C16'])
     fc.contract('subm_u16', within='impl SubMessage', requires=['cur_ok(data)'], ensures=['subm_u16_post(data, r)'], tags=['C16'])
-    fc.contract('parse', within='impl SotdmaMessage', requires=['cur_ok(data)'], ensures=['sotdma_post(data, r)'], tags=['C16'])
-    fc.contract('parse', within='impl ItdmaMessage', requires=['cur_ok(data)'], ensures=['itdma_post(data, r)'], tags=['C16'])
+    fc.contract('parse', within='impl SotdmaMessage', requires=['cur_ok(data)'], ensures=['sotdma_post(data, r)', 'sotdma_sync_C12(data, r)'], tags=['C16'])
+    fc.contract('parse', within='impl ItdmaMessage', requires=['cur_ok(data)'], ensures=['itdma_post(data, r)', 'itdma_sync_C12(data, r)'], tags=['C16'])
     fc.contract('parse_radio', requires=['cur_ok(input)'], ensures=['radio_post(input, msg_type, r)'], tags=['C16'])
